@@ -162,23 +162,17 @@ Print Assumptions C19_in_left_first_refuted.
 
 (* early error against late error (new, call, member call, in, instanceof,
    delete, subscripts, assignment, compound assignment, literals): in every
-   scenario of the table but the six listed otto raises the error ES5 raises
-   first, positioned at the same token, after the same side effects *)
-Theorem C19_eval_order_table : forall id,
-  id <> 4 -> id <> 45 -> id <> 31 -> id <> 32 -> id <> 33 -> id <> 44 ->
-  model_eval id = spec_eval id.
+   scenario of the table otto raises the error ES5 raises first, positioned at
+   the same token, after the same side effects (since 920f952 also for the
+   constructor reference of `new`, since 322af24 also for subscripts of
+   undefined/null) *)
+Theorem C19_eval_order_table : forall id, model_eval id = spec_eval id.
 Proof. exact eval_order_table. Qed.
 Print Assumptions C19_eval_order_table.
 
-(* new zz1(se(1)): the argument is evaluated although GetValue(zz1) must fail first *)
-Theorem C19_new_args_before_callee_refuted : model_eval 4 <> spec_eval 4.
-Proof. vm_compute. discriminate. Qed.
-Print Assumptions C19_new_args_before_callee_refuted.
-
-(* U[{toString: throws}]: the subscript's toString runs before the TypeError *)
-Theorem C19_member_tostring_before_coercible_refuted : model_eval 44 <> spec_eval 44.
-Proof. vm_compute. discriminate. Qed.
-Print Assumptions C19_member_tostring_before_coercible_refuted.
+Example C19_eval_order_witnesses :
+  model_eval 4 = Some (4, 1, []) /\ model_eval 45 = Some (4, 1, []) /\ model_eval 44 = Some (6, 1, []).
+Proof. repeat split; reflexivity. Qed.
 
 (* Error() of an uncaught error object is 15.11.4.4 of it as long as the script
    has not changed its name/message; any other thrown value gives its ToString *)
